@@ -29,4 +29,49 @@ func Parse
   requires dst != nil
   loop 0
     decreases scanRemaining(deref(s))
+
+// ---------------------------------------------------------------------------
+// DefaultStorage (property C08).  osOK: an orderedSet whose MapSet is usable.
+
+spec fn osOKs(os *namesSet) bool = os != nil && os.set != nil && !isnil(os.set.m)
+  inline
+spec fn osOKa(os *addrsSet) bool = os != nil && os.set != nil && !isnil(os.set.m)
+  inline
+
+// Every entry of both indexes is a usable ordered set.
+spec fn storageOK(s *DefaultStorage) bool =
+  s != nil && !isnil(s.names) && !isnil(s.addrs) &&
+  (forall a: haskey(s.names, a) ==> osOKs(mapget(s.names, a))) &&
+  (forall h: haskey(s.addrs, h) ==> osOKa(mapget(s.addrs, h)))
+  inline
+
+func (*orderedSet).add
+  requires os != nil && os.set != nil && !isnil(os.set.m)
+  ensures usable: os.set == old(os.set) && os.set.m == old(os.set.m)
+  ensures present_noop: old(haskey(os.set.m, key)) ==> os.vals == old(os.vals)
+  ensures appended: !old(haskey(os.set.m, key)) ==> len(os.vals) == old(len(os.vals)) + 1 && os.vals[len(os.vals) - 1] == val &&
+    (forall i in 0..old(len(os.vals)): os.vals[i] == old(os.vals[i]))
+  ensures marks_key: forall x: haskey(os.set.m, x) <==> (old(haskey(os.set.m, x)) || x == keyid(key))
+
+func (*DefaultStorage).Add
+  requires storageOK(s) && rec != nil
+  ensures inv: storageOK(s)
+  ensures no_names_no_change: len(rec.Names) == 0 ==>
+    (forall a: haskey(s.names, a) <==> old(haskey(s.names, a))) && (forall h: haskey(s.addrs, h) <==> old(haskey(s.addrs, h)))
+  ensures indexes_only_grow: (forall a: old(haskey(s.names, a)) ==> haskey(s.names, a) && mapget(s.names, a) == old(mapget(s.names, a))) &&
+    (forall h: old(haskey(s.addrs, h)) ==> haskey(s.addrs, h) && mapget(s.addrs, h) == old(mapget(s.addrs, h)))
+  loop 0
+    invariant storageOK(s) && osOKs(names)
+    invariant len(rec.Names) > 0 ==> haskey(s.names, rec.Addr) && mapget(s.names, rec.Addr) == names
+    invariant forall a: old(haskey(s.names, a)) ==> haskey(s.names, a) && mapget(s.names, a) == old(mapget(s.names, a))
+    invariant forall h: old(haskey(s.addrs, h)) ==> haskey(s.addrs, h) && mapget(s.addrs, h) == old(mapget(s.addrs, h))
+
+func (*DefaultStorage).ByAddr
+  requires storageOK(s)
+  ensures found: haskey(s.names, addr) && mapget(s.names, addr) != nil ==> hosts == mapget(s.names, addr).vals
+  ensures missing: !haskey(s.names, addr) ==> isnil(hosts)
+
+func (*DefaultStorage).ByName
+  requires storageOK(s)
+  ensures missing_is_nil: (forall h: !haskey(s.addrs, h)) ==> isnil(addrs)
 @*/
